@@ -230,6 +230,35 @@ def rule_h2(src, rep, it, counts):
         rep.ob("H2-repr-multi-run", f.where(), f.scope, "runs %s" % runs, ok, why)
 
 
+def rule_h6(src, rep, it, counts):
+    """repr is an expression over the fmtfuncs names: it has to evaluate to the same value whatever those helpers were called with
+    before in the same process (a helper that remembers an extra style from an earlier call makes every later repr lie)."""
+    g = src.func("formatstring", "Chunk.repr_part")
+    env = it.folder.module("fmtfuncs")
+    for name, extra in (("red", ("bold",)), ("on_blue", ("underline",)), ("bold", ("green",)), ("red", ("blink", "green", "yellow"))):
+        p = env.get(name)
+        if p is None:
+            continue
+        try:
+            it.folder.v_call(p, ["careful"] + list(extra), {}, None, {})
+        except FoldedRaise:
+            pass
+        except Unknown as e:
+            raise AnalysisError("fmtfuncs.%s%r outside the evaluated subset: %s" % (name, extra, e))
+    bad = None
+    for a in ({"fg": 31}, {"bg": 44}, {"bold": True}, {"fg": 31, "bg": 44, "bold": True}):
+        obj = mk(it, ("hi", a))
+        r = it.call1("formatstring", "FmtStr.__repr__", obj)
+        v = eval_repr(it, r[1]) if r[0] == "ok" and isinstance(r[1], str) else r
+        if v[0] == "unknown":
+            raise AnalysisError("evaluating the repr %r is outside the evaluated subset: %s" % (r[1], v[1]))
+        rep.case(True)
+        if v[0] != "ok" or not isinstance(v[1], (Obj, str)) or per_char(v[1]) != per_char(obj):
+            bad = bad or ("run with attributes %s" % a, "after red('careful', 'bold'), on_blue('careful', 'underline'), ... in the same process, repr %r evaluates to %s, the value has %s"
+                          % (r[1] if r[0] == "ok" else r, per_char(v[1])[:1] if v[0] == "ok" and isinstance(v[1], (Obj, str)) else v, per_char(obj)[:1]))
+    rep.ob("H2-repr-evaluates-to-same-value-after-other-helper-calls", g.where(), g.scope, bad[0] if bad else "4 attribute sets after helper calls with extra names", not bad, bad[1] if bad else "")
+
+
 def rule_h5(src, rep, it, counts):
     """Values arrived at through a history: equal to, hashing like, and repr-evaluating to a freshly built value with the same runs."""
     from ..derive import derived_values
@@ -288,6 +317,7 @@ def check(src, rep):
     rep.guard(rule_h1, src, rep, it, counts)
     rep.guard(rule_h2, src, rep, it, counts)
     rep.guard(rule_h5, src, rep, it, counts)
+    rep.guard(rule_h6, src, rep, it, counts)
     from .c01 import cache_coherence
     rep.guard(cache_coherence, src, rep)
     rep.extracted["counts"] = counts
